@@ -396,6 +396,11 @@ def make_options(ctx, o):
         setattr(opts, k, bool(full[k]))
     if full["name_IDs"] != "default":
         opts.name_IDs = list(full["name_IDs"])
+    if "kern" in ctx.font and "GPOS" in ctx.font:
+        # documented default: the TrueType kern table is dropped when GPOS is present (--legacy-kern keeps it). A shaper uses
+        # that table whenever GPOS has no kern feature, so the default removes behaviour by design; the request here is the
+        # documented way to keep it, and then it has to be kept intact
+        opts.legacy_kern = True
     return opts, forced_required
 
 
